@@ -81,6 +81,7 @@ const baseDefs = `{{define "h"}}{{.Y}}{{.S}}{{.Y}}{{end}}` +
 	`{{define "cb"}}<i>{{template "bad" .}}</i>{{end}}` +
 	`{{define "hs"}}{{.Y}}{{if has "a"}}<i>{{.S}}</i>{{end}}{{names}}{{.Y}}{{end}}` +
 	`{{define "q"}}<a href="/p?q={{.S}}">{{.Y}}<a href="{{.S}}">t</a>{{end}}` +
+	`{{define "op"}}<b title="{{.S}}{{end}}{{define "pg"}}{{template "op" .}} tail">{{.Y}}x</b>{{end}}` +
 	`ROOT{{template "a" .}}`
 
 func scenarios() []scenario {
@@ -134,6 +135,11 @@ func scenarios() []scenario {
 			{{Kind: "exec", Name: "a", Data: 0}, {Kind: "templates"}},
 			{{Kind: "templates"}, {Kind: "templates"}},
 			{{Kind: "exec", Name: "b", Data: 0}, {Kind: "templates"}, {Kind: "lookup", Name: "h"}},
+		}},
+		{"S13-fragment-fails-on-its-own-while-its-caller-runs", baseDefs, [][]call{
+			{{Kind: "exec", Name: "pg", Data: 0}, {Kind: "exec", Name: "pg", Data: 0}},
+			{{Kind: "exec", Name: "op", Data: 0}},
+			{{Kind: "tohtml", Name: "pg", Data: 1}},
 		}},
 		{"S7-execute-same-root-first-and-repeated", baseDefs, [][]call{
 			{{Kind: "execroot", Data: 0}},
